@@ -730,16 +730,21 @@ class PageElement(object):
         if any(x is self for x in args):
             raise ValueError("Can't insert an element after itself.")
 
-        offset = 0
         results: List[PageElement] = []
+        anchor: PageElement = self
         for successor in args:
             # Extract first so that the index won't be screwed up if they
             # are siblings.
             if isinstance(successor, PageElement):
                 successor.extract()
-            index = parent.index(self)
-            results.extend(parent.insert(index + 1 + offset, successor))
-            offset += 1
+            index = parent.index(anchor)
+            just_inserted = parent.insert(index + 1, successor)
+            results.extend(just_inserted)
+            if just_inserted:
+                # The next successor goes after everything inserted
+                # so far (a BeautifulSoup object expands to several
+                # elements).
+                anchor = just_inserted[-1]
 
         return results
 
